@@ -1,3 +1,5 @@
 import XvcEcs.Model
 import XvcEcs.Lemmas
 import XvcEcs.Props
+import XvcEcs.Rel
+import XvcEcs.PropsRel
